@@ -16,6 +16,7 @@ TREE_INITS = ['parso.tree.Leaf.__init__', 'parso.tree.TypedLeaf.__init__', 'pars
               'parso.python.tree.Module.__init__', 'parso.python.tree.Function.__init__',
               'parso.python.tree.Lambda.__init__', 'parso.python.tree.Param.__init__',
               'parso.python.tree.ClassOrFunc.__init__', 'parso.python.tree.Class.__init__']
+LEAF_INITS = ['parso.tree.Leaf.__init__', 'parso.tree.TypedLeaf.__init__', 'parso.tree.ErrorLeaf.__init__']   # cls:leaf-dispatch
 DYNAMIC = {
     ('parso.grammar.Grammar.parse', 'self._parser'): ['parso.python.parser.Parser.__init__', 'parso.parser.BaseParser.__init__'],
     ('parso.grammar.Grammar.parse', '._parser'): ['parso.python.parser.Parser.__init__', 'parso.parser.BaseParser.__init__'],
@@ -27,13 +28,13 @@ DYNAMIC = {
     ('parso.normalizer.NormalizerConfig.create_normalizer', 'self.normalizer_class'):
         ['parso.normalizer.Normalizer.__init__', 'parso.python.errors.ErrorFinder.__init__',
          'parso.python.pep8.PEP8Normalizer.__init__', 'parso.normalizer.RefactoringNormalizer.__init__'],
-    ('parso.parser.BaseParser.convert_leaf', 'self.default_leaf'): TREE_INITS,
-    ('parso.parser.BaseParser.convert_leaf', 'self.leaf_map[type_]'): TREE_INITS,
+    ('parso.parser.BaseParser.convert_leaf', 'self.default_leaf'): LEAF_INITS,
+    ('parso.parser.BaseParser.convert_leaf', 'self.leaf_map[type_]'): LEAF_INITS,
     ('parso.parser.BaseParser.convert_node', 'self.node_map[nonterminal]'): TREE_INITS,
     ('parso.parser.BaseParser.convert_node', 'self.default_node'): TREE_INITS,
     ('parso.python.parser.Parser.convert_node', 'self.node_map[nonterminal]'): TREE_INITS,
     ('parso.python.parser.Parser.convert_node', 'self.default_node'): TREE_INITS,
-    ('parso.python.parser.Parser.convert_leaf', 'self._leaf_map.get(type, tree.Operator)'): TREE_INITS,
+    ('parso.python.parser.Parser.convert_leaf', 'self._leaf_map.get(type, tree.Operator)'): LEAF_INITS,
     ('parso.python.errors._Context._analyze_names', 'self._add_syntax_error'): ['parso.python.errors.ErrorFinder._add_syntax_error'],
     ('parso.python.errors._Context._analyze_names.<locals>.raise_', 'self._add_syntax_error'): ['parso.python.errors.ErrorFinder._add_syntax_error'],
     ('parso.python.errors._Context.finalize', 'self._add_syntax_error'): ['parso.python.errors.ErrorFinder._add_syntax_error'],
@@ -286,4 +287,104 @@ def raises_obligations(name, quals, allowed):
             obs.append(Ob('eff:%s:raises:%s' % (name, short), 'D', 'effects', REFUTED, 0,
                           '%s may escape %s (origin: %s)' % (e, q, o), dict(exception=e, origin=o), functions=[q],
                           signature='%s from %s' % (e, o), replayed=False))
+    return obs
+
+
+# ---------------------------------------------------------------------------------------------------------------
+# Frames of the sidecar contracts.  At a call site the VC generator havocs exactly what the callee's contract declares
+# (`modifies`: fields, `lists`: list objects); everything else is kept.  That is sound only if the declaration covers
+# what the real function (and everything it calls) writes, which is decided here over the call graph:
+#     attributes written (outside `self.x = ...` in constructors of fresh objects)  <=  declared attributes
+#     containers changed in place  =>  `lists` is declared and names the attribute the container hangs off
+def _attr_names(exprs):
+    out = set()
+    for e in exprs or ():
+        try:
+            tree_ = ast.parse(e, mode='eval')
+        except SyntaxError:
+            out.add(e.rsplit('.', 1)[-1])
+            continue
+        for n in ast.walk(tree_):
+            if isinstance(n, ast.Attribute):
+                out.add(n.attr)
+            elif isinstance(n, ast.Name):
+                out.add(n.id)
+    return out
+
+
+def contract_frame_obligations(keys):
+    from pv.contract import REG, FIELDS
+    prog = program()
+    obs = []
+    for key in keys:
+        ctr = REG.get(key)
+        if ctr is None or ctr.trusted:
+            continue
+        q = ctr.qual
+        cands = [q]
+        if ctr.closure_of:
+            cands.append('%s.<locals>.%s' % (ctr.closure_of, q.rsplit('.', 1)[-1]))
+        fq = next((c for c in cands if c in prog.fns), None)
+        name = 'frame:%s' % key
+        if fq is None or ctr.kind == 'property' and ctr.setter:
+            continue
+        reach = prog.reachable([fq])
+        written, mutated, params = {}, {}, set()
+        for r in reach:
+            f = prog.fns[r]
+            for loc, ln, txt in f.writes:
+                if loc.startswith('field:'):
+                    if _is_ctor_self_write(r, loc, prog):
+                        continue
+                    written.setdefault(loc.rsplit('.', 1)[-1], (r, txt))
+                elif loc.startswith(('param:', 'default:')) and r == fq:
+                    params.add(loc.rsplit('.', 1)[-1])
+                elif loc.startswith(('global:', 'clsattr:')):
+                    written.setdefault(loc, (r, txt))
+            for loc in f.mutations:
+                if loc.startswith('field:'):
+                    mutated.setdefault(loc.rsplit('.', 1)[-1], r)
+                elif loc.startswith(('global:', 'clsattr:')):
+                    mutated.setdefault(loc, r)
+        declared = _attr_names(ctr.modifies)
+        lists_decl = None if ctr.lists is None else ('*' if ctr.lists == '*' else _attr_names(ctr.lists))
+        list_attrs = {a for a in mutated if (FIELDS.get(a) or '').startswith('list:') or
+                      any(isinstance(k, tuple) and k[1] == a and str(v).startswith('list:') for k, v in FIELDS.items())}
+        bad = []
+        assumed = []
+        for a in list(written):
+            if a in ctr.frame_assumed or a.rsplit('.', 1)[-1] in ctr.frame_assumed:
+                assumed.append(a)
+                del written[a]
+                mutated.pop(a, None)
+                list_attrs.discard(a)
+        for a, (r, txt) in sorted(written.items()):
+            if a in declared or a.rsplit('.', 1)[-1] in declared:
+                continue
+            if a in list_attrs and a in mutated and lists_decl is not None and (lists_decl == '*' or a in lists_decl):
+                continue            # an in-place change of a list that the `lists` frame names
+            bad.append('%s written by %s (%s)' % (a, r, txt[:60]))
+        for a in sorted(list_attrs):
+            if lists_decl is None:
+                bad.append('list %s changed in place by %s but the contract declares no list frame' % (a, mutated[a]))
+            elif lists_decl != '*' and a not in lists_decl:
+                bad.append('list %s changed in place by %s, not named in lists=%r' % (a, mutated[a], ctr.lists))
+        for a in sorted(set(mutated) - list_attrs):
+            # a dict / set changed in place: the contract must say that dict contents change
+            if '$maps' not in ctr.modifies:
+                bad.append('container %s changed in place by %s but modifies does not include $maps' % (a, mutated[a]))
+        for a in sorted(params):
+            kind = ctr.params.get(a, '')
+            if kind.startswith('list:') and (lists_decl is None or (lists_decl != '*' and a not in lists_decl)):
+                bad.append('list parameter %s changed in place, not named in the list frame' % a)
+        if bad:
+            obs.append(Ob(name, 'D', 'effects', REFUTED, 0,
+                          'the contract frame of %s does not cover what the code writes: %s' % (q, '; '.join(bad[:6])),
+                          dict(function=q, uncovered=bad[:12]), functions=[q], replayed=False))
+        else:
+            obs.append(Ob(name, 'D', 'effects', DISCHARGED, 0,
+                          '%d reachable functions; attributes written %r, lists changed %r: all inside the declared frame '
+                          '(modifies=%r lists=%r)%s' % (len(reach), sorted(written)[:12], sorted(list_attrs), ctr.modifies, ctr.lists,
+                                                       '; not counted (assumed, see contract): %r' % assumed if assumed else ''),
+                          functions=[q]))
     return obs
